@@ -158,6 +158,11 @@ fn conn_frames() -> Vec<Vec<Vec<u8>>> {
             1 => {
                 let h = hello(&format!("t{k}.example"));
                 f.push(frame_between(&c, &s, ACK | PSH, 1001, &h[..9], eth));
+                if k % 2 == 1 {
+                    // the server repeats its SYN+ACK (it missed the client's ACK) while the hello is under way
+                    let again = f[1].clone();
+                    f.push(again);
+                }
                 f.push(frame_between(&c, &s, ACK | PSH, 1010, &h[9..60], eth));
                 f.push(frame_between(&c, &s, ACK | PSH, 1061, &h[60..], eth));
             }
@@ -236,7 +241,8 @@ fn pools(r: &mut Report, thorough: bool) {
         trace.iter().map(|f| a.feed(f)).filter(|x| !x.is_empty()).map(|x| format!("{x:?}")).collect()
     };
     r.sample(|| json!({"trace_packets": trace.len(), "sequential_results": {"tcp": seq_tcp.len(), "http": seq_http.len(), "tls": seq_tls.len()}}));
-    if seq_tcp.len() < 12 || seq_http.len() < 12 || seq_tls.len() < 4 {
+    // (a sequential analyzer that loses some of the four TLS connections is a finding of the comparison below, not a reason to stop)
+    if seq_tcp.len() < 12 || seq_http.len() < 12 || seq_tls.len() < 2 {
         r.machinery_error(format!("sequential reference too small: tcp {} http {} tls {}", seq_tcp.len(), seq_http.len(), seq_tls.len()));
         return;
     }
@@ -337,6 +343,9 @@ fn configured_route(r: &mut Report) {
     let trace = interleave(&conn_frames());
     let (max_conn, workers, queue, batch, timeout) = (64usize, 1usize, 4usize, 2usize, 5u64);
     let cfg = json!({"kind": "configured-route", "max_connections": max_conn, "workers": workers, "queue_size": queue, "batch_size": batch});
+    // the link is quiet for a while (eight receive timeouts of the workers, real time): what a worker knows about its open
+    // connections does not depend on how busy it is kept
+    let idle_pause = || std::thread::sleep(std::time::Duration::from_millis(8 * timeout));
     let wait_drained = |queued: &dyn Fn() -> usize| {
         let t = std::time::Instant::now();
         while queued() > 0 && t.elapsed().as_secs() < 10 {
@@ -354,8 +363,11 @@ fn configured_route(r: &mut Report) {
             let mut an = huginn_net_http::HuginnNetHttp::with_config(Some(d.clone()), max_conn, workers, queue, batch, timeout).map_err(|e| e.to_string())?;
             an.init_pool(tx).map_err(|e| e.to_string())?;
             let pool = an.worker_pool().ok_or("no pool")?.clone();
-            for f in &trace {
+            for (i, f) in trace.iter().enumerate() {
                 wait_drained(&|| pool.stats().workers.iter().map(|w| w.queue_size).sum());
+                if i == trace.len() / 2 || i == trace.len() / 3 {
+                    idle_pause();
+                }
                 if pool.dispatch(f.clone()) != huginn_net_http::DispatchResult::Queued {
                     return Err("dropped although at most one packet is in flight".into());
                 }
@@ -377,8 +389,11 @@ fn configured_route(r: &mut Report) {
             let mut an = huginn_net_tls::HuginnNetTls::with_config_and_max_connections(workers, queue, batch, timeout, max_conn);
             an.init_pool(tx).map_err(|e| e.to_string())?;
             let pool = an.worker_pool().ok_or("no pool")?;
-            for f in &trace {
+            for (i, f) in trace.iter().enumerate() {
                 wait_drained(&|| pool.stats().workers.iter().map(|w| w.queue_size).sum());
+                if i == trace.len() / 2 || i == trace.len() / 3 {
+                    idle_pause();
+                }
                 if pool.dispatch(f.clone()) != huginn_net_tls::DispatchResult::Queued {
                     return Err("dropped although at most one packet is in flight".into());
                 }
@@ -413,6 +428,9 @@ fn configured_route(r: &mut Report) {
             let pool = an.worker_pool().ok_or("no pool")?;
             let mut got = vec![];
             for (clock, frames) in [(T0, &first), (T0 + 1000, &second)] {
+                if clock != T0 {
+                    idle_pause();
+                }
                 huginn_net_tcp::uptime::verif_clock::set_global(clock);
                 for f in frames.iter() {
                     if pool.dispatch(f.clone()) != huginn_net_tcp::DispatchResult::Queued {
@@ -443,7 +461,7 @@ fn pcap_route(r: &mut Report, thorough: bool) {
     let seq_tcp: Vec<String> = crate::drv::tcp_pcap(&trace, None, cap).unwrap_or_default().into_iter().filter(|x| !x.is_empty()).map(|x| format!("{x:?}")).collect();
     let seq_http: Vec<String> = crate::drv::http_pcap(&trace, None, cap).unwrap_or_default().into_iter().filter(|x| !x.is_empty()).map(|x| format!("{x:?}")).collect();
     let seq_tls: Vec<String> = crate::drv::tls_pcap(&trace, None, cap).unwrap_or_default().into_iter().map(|x| format!("{x:?}")).collect();
-    if seq_tcp.len() < 24 || seq_http.len() < 8 || seq_tls.len() < 4 {
+    if seq_tcp.len() < 24 || seq_http.len() < 8 || seq_tls.len() < 2 {
         r.machinery_error(format!("pcap-route: the sequential references are too small ({} / {} / {})", seq_tcp.len(), seq_http.len(), seq_tls.len()));
     }
     // the per-packet functions are what the loom engine and the pool sweep use as "the sequential analyzer": bind them to
@@ -650,7 +668,7 @@ pub fn run(thorough: bool) -> Outcome {
     budget_route(&mut r);
     Outcome {
         report: r,
-        rule: "routing: every ordered same-family pair of 144 endpoints (12 IPv4 + 6 IPv6 addresses with all bytes varied x 8 ports), raw and Ethernet, x worker counts: SYN, SYN+ACK, request, response, further segment and FIN of a connection on one HTTP worker; all client segments on one TLS worker; everything a host sends on one TCP worker. pools: a 13-connection interleaved trace (one connection with 40 bytes of IPv4 options and 40 bytes of TCP options on every frame incl. data segments, and a 9000-byte response) through real TCP / HTTP / TLS pools for worker counts x batch {1,2,32} x timeout {1,10} ms (schedules sampled, not enumerated) compared with the sequential analyzers as multiset and per connection / sender order; configured route: with_config + init_pool + worker_pool of each analyzer with 12 simultaneously open connections, queue size 4, capacity 64 (TCP: timestamped SYN and ACK one second apart under the injected clock), lock-step dispatch, results equal to the sequential analyzer; pcap route: with_config (+ init_pool) + analyze_pcap of each analyzer on the 12-connection trace written to a capture file, queue larger than the trace, worker counts x batch {1,2,32} x timeout {1,10} ms x repeated rounds (schedules sampled), results equal as a multiset to the same analyzer's sequential analyze_pcap; budget route: 4 connections that the tree's hash sends to one worker, open at the same time, max_connections = 4, workers {2,4,16}: parallel mode (HTTP / TLS through analyze_pcap incl. the pool the TLS analyzer builds itself, TCP lock-step under the injected clock) equals sequential; distinct = distinct routing / delivery outcomes".into(),
+        rule: "routing: every ordered same-family pair of 144 endpoints (12 IPv4 + 6 IPv6 addresses with all bytes varied x 8 ports), raw and Ethernet, x worker counts: SYN, SYN+ACK, request, response, further segment and FIN of a connection on one HTTP worker; all client segments on one TLS worker; everything a host sends on one TCP worker. pools: a 13-connection interleaved trace (one connection with 40 bytes of IPv4 options and 40 bytes of TCP options on every frame incl. data segments, and a 9000-byte response) through real TCP / HTTP / TLS pools for worker counts x batch {1,2,32} x timeout {1,10} ms (schedules sampled, not enumerated) compared with the sequential analyzers as multiset and per connection / sender order; configured route: with_config + init_pool + worker_pool of each analyzer with 12 simultaneously open connections, queue size 4, capacity 64 (TCP: timestamped SYN and ACK one second apart under the injected clock), lock-step dispatch with two real pauses of eight worker receive timeouts while connections are half delivered, results equal to the sequential analyzer; pcap route: with_config (+ init_pool) + analyze_pcap of each analyzer on the 12-connection trace written to a capture file, queue larger than the trace, worker counts x batch {1,2,32} x timeout {1,10} ms x repeated rounds (schedules sampled), results equal as a multiset to the same analyzer's sequential analyze_pcap; budget route: 4 connections that the tree's hash sends to one worker, open at the same time, max_connections = 4, workers {2,4,16}: parallel mode (HTTP / TLS through analyze_pcap incl. the pool the TLS analyzer builds itself, TCP lock-step under the injected clock) equals sequential; distinct = distinct routing / delivery outcomes".into(),
         exhaustive: true,
         bounds: json!({"endpoints": endpoints().len(), "note": "the pool part samples schedules; schedule coverage comes from the loom engine"}),
     }
